@@ -105,16 +105,16 @@ func isSortCall(c *ssa.CallCommon) bool {
 
 func ruleA22(r *Run, p *Prog, rels []string) {
 	n := 0
-	for _, f := range p.ModFns {
-		okRel := false
-		for _, rel := range rels {
-			if pkgRel(f) == rel {
-				okRel = true
+	// helpers that sort one of their slice parameters stay calls (recognised by sortsParam)
+	sorter := func(g *ssa.Function) bool {
+		for i := range g.Params {
+			if _, ok := g.Params[i].Type().Underlying().(*types.Slice); ok && sortsParam(g, i, 0) {
+				return true
 			}
 		}
-		if !okRel {
-			continue
-		}
+		return false
+	}
+	for _, f := range p.RootViews(rels, "keep-sorters", sorter) {
 		eachInstr(f, func(b *ssa.BasicBlock, i int, in ssa.Instruction) {
 			rg, ok := in.(*ssa.Range)
 			if !ok {
@@ -132,7 +132,7 @@ func ruleA22(r *Run, p *Prog, rels []string) {
 				}
 			}
 			if hdr == nil || !isLoopHeader(hdr) {
-				r.Ob("A22", FnName(f)+"/map-range", p.Pos(rg.Pos()), false, true, "map iteration with an unrecognised loop shape (undecided)")
+				r.Ob("A22", originFnName(f, rg)+"/map-range", p.Pos(rg.Pos()), false, true, "map iteration with an unrecognised loop shape (undecided)")
 				return
 			}
 			body := loopBlocks(hdr)
@@ -169,133 +169,133 @@ func ruleA22(r *Run, p *Prog, rels []string) {
 				}
 			}
 			if wrote != "" {
-				r.Ob("A22", FnName(f)+"/map-range/writes-output", p.Pos(rg.Pos()), false, true, "output is produced inside a range over a map ("+wrote+"): the order of the rendered fields changes from run to run")
+				r.Ob("A22", originFnName(f, rg)+"/map-range/writes-output", p.Pos(rg.Pos()), false, true, "output is produced inside a range over a map ("+wrote+"): the order of the rendered fields changes from run to run")
 				return
 			}
 			if len(grown) == 0 && len(grownMem) == 0 {
-				r.Ob("A22", FnName(f)+"/map-range", p.Pos(rg.Pos()), true, true, "the loop over the map only builds order-insensitive data (a map / set / scalars)")
+				r.Ob("A22", originFnName(f, rg)+"/map-range", p.Pos(rg.Pos()), true, true, "the loop over the map only builds order-insensitive data (a map / set / scalars)")
 				return
 			}
+			// The unsorted slice is the loop phi as it leaves the loop and/or a local variable in memory
+			// (a variable captured by a closure): values are tracked through stores into locals.
+			trackedAllocs := map[*ssa.Alloc]bool{}
 			for al := range grownMem {
-				loadsOf := func(v ssa.Value) bool {
-					ld, ok := v.(*ssa.UnOp)
-					return ok && ld.Op == token.MUL && ld.X == ssa.Value(al)
-				}
-				isSortOf := func(x ssa.Instruction) bool {
-					c, ok := x.(*ssa.Call)
-					if !ok {
-						return false
-					}
-					if isSortCall(&c.Call) {
-						for _, a := range c.Call.Args {
-							if loadsOf(stripIface(a)) {
-								return true
-							}
-						}
-					}
-					if sc := staticCallee(&c.Call); sc != nil && InModule(sc) {
-						for ai, a := range c.Call.Args {
-							if loadsOf(a) && sortsParam(sc, ai, 0) {
-								return true
-							}
-						}
-					}
-					return false
-				}
-				isOtherUse := func(x ssa.Instruction) bool {
-					if body[x.Block()] || isSortOf(x) {
-						return false
-					}
-					if mc, ok := x.(*ssa.MakeClosure); ok {
-						for _, bnd := range mc.Bindings {
-							if bnd == ssa.Value(al) {
-								return true
-							}
-						}
-					}
-					if _, isLoad := x.(*ssa.UnOp); isLoad {
-						return false // the load itself; its users are examined
-					}
-					for _, op := range x.Operands(nil) {
-						if op != nil && loadsOf(*op) {
-							if c, ok := x.(*ssa.Call); ok && (builtinName(&c.Call) == "len" || builtinName(&c.Call) == "cap") {
-								return false
-							}
-							return true
-						}
-					}
-					return false
-				}
-				var exit ssa.Instruction
-				for _, sx := range hdr.Succs {
-					if !body[sx] && len(sx.Instrs) > 0 {
-						exit = sx.Instrs[0]
-					}
-				}
-				bad := false
-				if exit != nil {
-					if isOtherUse(exit) {
-						bad = true
-					} else if !isSortOf(exit) {
-						bad, _ = pathExists(f, exit, isOtherUse, isSortOf, nil)
-					}
-				}
-				r.Ob("A22", FnName(f)+"/map-range/sorted:"+al.Comment, p.Pos(rg.Pos()), !bad, true, tern(!bad, "the slice filled from the map is sorted on every path before it is used", "a slice filled in map-iteration order is used without being sorted first on some path: the output order changes from run to run"))
+				trackedAllocs[al] = true
 			}
+			phis := map[ssa.Value]bool{}
 			for _, ph := range grown {
-				// after the loop: every use of the slice (the phi, as it leaves the loop) is preceded by a sort of it
-				isSortOf := func(x ssa.Instruction) bool {
-					c, ok := x.(*ssa.Call)
-					if !ok {
-						return false
+				phis[ph] = true
+			}
+			tracked := func(v ssa.Value) bool {
+				v = stripIface(v)
+				if phis[v] {
+					return true
+				}
+				if ld, ok := v.(*ssa.UnOp); ok && ld.Op == token.MUL {
+					if al, ok := ld.X.(*ssa.Alloc); ok && trackedAllocs[al] {
+						return true
 					}
-					if isSortCall(&c.Call) {
-						for _, a := range c.Call.Args {
-							if stripIface(a) == ssa.Value(ph) {
-								return true
-							}
+				}
+				return false
+			}
+			trackingStore := map[ssa.Instruction]bool{}
+			for changed := true; changed; {
+				changed = false
+				eachInstr(f, func(bb *ssa.BasicBlock, k int, x ssa.Instruction) {
+					st, ok := x.(*ssa.Store)
+					if !ok || body[bb] {
+						return
+					}
+					if al, ok := st.Addr.(*ssa.Alloc); ok && tracked(st.Val) {
+						trackingStore[st] = true
+						if !trackedAllocs[al] {
+							trackedAllocs[al] = true
+							changed = true
 						}
 					}
-					if sc := staticCallee(&c.Call); sc != nil && InModule(sc) {
-						for ai, a := range c.Call.Args {
-							if a == ssa.Value(ph) && sortsParam(sc, ai, 0) {
-								return true
-							}
-						}
-					}
+				})
+			}
+			isSortOf := func(x ssa.Instruction) bool {
+				c, ok := x.(*ssa.Call)
+				if !ok {
 					return false
 				}
-				isOtherUse := func(x ssa.Instruction) bool {
-					if body[x.Block()] || isSortOf(x) {
-						return false
-					}
-					for _, op := range x.Operands(nil) {
-						if op != nil && *op == ssa.Value(ph) {
-							// len()/cap() of the slice does not depend on the order
-							if c, ok := x.(*ssa.Call); ok && (builtinName(&c.Call) == "len" || builtinName(&c.Call) == "cap") {
-								return false
-							}
+				if isSortCall(&c.Call) {
+					for _, a := range c.Call.Args {
+						if tracked(a) {
 							return true
 						}
 					}
+				}
+				if sc := staticCallee(&c.Call); sc != nil && InModule(sc) {
+					for ai, a := range c.Call.Args {
+						if tracked(a) && sortsParam(sc, ai, 0) {
+							return true
+						}
+					}
+				}
+				return false
+			}
+			isOtherUse := func(x ssa.Instruction) bool {
+				if body[x.Block()] || isSortOf(x) || trackingStore[x] {
 					return false
 				}
-				var exit ssa.Instruction
-				for _, s := range hdr.Succs {
-					if !body[s] && len(s.Instrs) > 0 {
-						exit = s.Instrs[0]
+				if mc, ok := x.(*ssa.MakeClosure); ok {
+					// the comparator handed to the sort call may capture the slice
+					onlySort := len(referrersOf(mc)) > 0
+					for _, ref := range referrersOf(mc) {
+						if !isSortOf(ref) {
+							onlySort = false
+						}
+					}
+					if onlySort {
+						return false
+					}
+					for _, bnd := range mc.Bindings {
+						if al, ok := bnd.(*ssa.Alloc); ok && trackedAllocs[al] {
+							return true
+						}
 					}
 				}
-				bad := false
-				if exit != nil {
-					if isOtherUse(exit) {
-						bad = true
-					} else if !isSortOf(exit) {
-						bad, _ = pathExists(f, exit, isOtherUse, isSortOf, nil)
+				if ld, isLoad := x.(*ssa.UnOp); isLoad && ld.Op == token.MUL {
+					return false // the load itself; its users are examined
+				}
+				switch x.(type) {
+				case *ssa.MakeInterface, *ssa.ChangeType:
+					return false // wrappers: tracked() looks through them at their users
+				}
+				for _, op := range x.Operands(nil) {
+					if op != nil && *op != nil && tracked(*op) {
+						if c, ok := x.(*ssa.Call); ok && (builtinName(&c.Call) == "len" || builtinName(&c.Call) == "cap") {
+							return false
+						}
+						return true
 					}
 				}
-				r.Ob("A22", FnName(f)+"/map-range/sorted:"+ph.Comment, p.Pos(rg.Pos()), !bad, true, tern(!bad, "the slice filled from the map is sorted on every path before it is used", "a slice filled in map-iteration order is used without being sorted first on some path: the output order changes from run to run"))
+				return false
 			}
+			var exit ssa.Instruction
+			for _, sx := range hdr.Succs {
+				if !body[sx] && len(sx.Instrs) > 0 {
+					exit = sx.Instrs[0]
+				}
+			}
+			bad := false
+			if exit != nil {
+				if isOtherUse(exit) {
+					bad = true
+				} else if !isSortOf(exit) {
+					bad, _ = pathExists(f, exit, isOtherUse, isSortOf, nil)
+				}
+			}
+			name := ""
+			for _, ph := range grown {
+				name = ph.Comment
+			}
+			for al := range grownMem {
+				name = al.Comment
+			}
+			r.Ob("A22", originFnName(f, rg)+"/map-range/sorted:"+name, p.Pos(rg.Pos()), !bad, true, tern(!bad, "the slice filled from the map is sorted on every path before it is used"+viewNote(f), "a slice filled in map-iteration order is used without being sorted first on some path: the output order changes from run to run"+viewNote(f)))
 		})
 	}
 	if n < 2 {
@@ -402,6 +402,7 @@ func ruleConsoleOnce(r *Run, p *Prog) {
 	if !r.Anchor(wf != nil, "ONCE", "ConsoleWriter.writeFields") {
 		return
 	}
+	wf = p.View(wf, "", nil)
 	// the output loop: the dynamic formatter call fn(field) whose result is written with WriteString
 	var nameCall *ssa.Call
 	eachInstr(wf, func(b *ssa.BasicBlock, i int, in ssa.Instruction) {
@@ -433,7 +434,20 @@ func ruleConsoleOnce(r *Run, p *Prog) {
 			slice = ia.X
 		}
 	}
-	facts, ok := analyseRangeLoop(wf, nameCall, elem, func(v ssa.Value) bool { return v == slice })
+	sameSlice := func(v ssa.Value) bool {
+		if v == slice {
+			return true
+		}
+		// the slice variable lives in memory (captured by a closure): any load of that local
+		l1, ok1 := v.(*ssa.UnOp)
+		l2, ok2 := slice.(*ssa.UnOp)
+		if ok1 && ok2 && l1.Op == token.MUL && l2.Op == token.MUL && l1.X == l2.X {
+			_, isAl := l1.X.(*ssa.Alloc)
+			return isAl
+		}
+		return false
+	}
+	facts, ok := analyseRangeLoop(wf, nameCall, elem, sameSlice)
 	r.Ob("ONCE", FnName(wf)+"/output-loop", p.Pos(nameCall.Pos()), ok && facts.NoEarlyExit && facts.RangeAll && facts.EveryIter && facts.Element, true,
 		tern(ok && facts.NoEarlyExit && facts.RangeAll && facts.EveryIter && facts.Element, "the output loop visits every collected field, without early exit, and writes its name exactly once", "the output loop skips, repeats or stops before some collected field (no-early-exit="+boolStr(facts.NoEarlyExit)+", all="+boolStr(facts.RangeAll)+", once-per-iteration="+boolStr(facts.EveryIter)+")"))
 	// the value is written once per iteration as well: every iteration path writes something after the name
@@ -495,7 +509,20 @@ func ruleConsoleOnce(r *Run, p *Prog) {
 			if b, isB := constBool(y); isB && b {
 				return true // isExcluded == true
 			}
-			return loadedGlobal(y) != nil || loadedGlobal(x) != nil // field == <part name variable>
+			if loadedGlobal(y) != nil || loadedGlobal(x) != nil { // field == <part name variable>
+				return true
+			}
+			// field == w.FieldsExclude[i]
+			for _, v := range []ssa.Value{x, y} {
+				if ld, ok := v.(*ssa.UnOp); ok && ld.Op == token.MUL {
+					if ia, ok := ld.X.(*ssa.IndexAddr); ok {
+						if fv, _ := loadedField(ia.X); fv != nil && fv.Name() == "FieldsExclude" {
+							return true
+						}
+					}
+				}
+			}
+			return false
 		})
 		if !reason {
 			okC = false
